@@ -22,7 +22,7 @@ THEOREMS = [
     "approx_add_pointwise", "approx_add_mismatch_rejected", "approx_neg_scale_div_pointwise",
     "approx_sub_pointwise", "snap_is_interp", "resample_is_linear_interpolation", "snap_defaults_are_min_max",
     "snap_succeeds", "lc_is_combination", "average_is_mean",
-    "sweep_output_wf", "exact_landscape_output_wf", "arith_on_diagram_landscapes", "diagram_environment_exists",  # cross-property glue (Proofs/LandscapeGlue*.v, LandscapeStabP.v)
+    "sweep_output_wf", "exact_landscape_output_wf", "arith_on_diagram_landscapes", "diagram_environment_exists",  # cross-property glue (Proofs/LandscapeGlue*.v, LandscapeStabP.v), "add_empty_depth_is_error",
 ]
 RULE = ("seeded random histories: 2-4 leaves (exact family: PersLandscapeExact from diagrams and from explicit "
         "well-formed critical pairs with coincident abscissae between operands, different depth counts, sign "
